@@ -257,7 +257,8 @@ def _get_subcircuits(
             is_output: bool = node in outputs_set
             if not is_output:
                 for user in users:
-                    if user not in cone:
+                    # a leaf of the cut stays in the circuit, even if it uses the node
+                    if user not in cone or user in inputs:
                         is_output = True
                         break
             if is_output:
